@@ -249,7 +249,7 @@ ATTR_POOL = ["id", "label_asym_id", "auth_asym_id", "type", "name", "value", "de
 VALUE_POOL = ["A", "B", "C", "AA", "a", "b", "A-2", "B-2", "1", "2", "10", "1.50", "0010", "-3.25", "x y", "two  spaces",
               "it's", "O5'", 'N"1', "it's a \"q\" w", "say 'hi' now", "line1\nline2", "; not a block", "_underscore",
               "data_like", "loop_", "#hash", "a#b", "$dollar", "[bracket]", "?", ".", "?x", "..", "N/A",
-              "(2'-5')", "trailing'", "'leading", "long " + "w" * 90]
+              "(2'-5')", "trailing'", "'leading", "long " + "w" * 90, ""]
 ALPHA_POOL = "ABCDEFGHIJKLMNOPQRSTUVWXYZabcdefghijklmnopqrstuvwxyz0123456789!\"#$%&'()*+,-./:;<=>?@[\\]^_`{|}~"
 
 
@@ -290,11 +290,23 @@ CORPUS_OPS = [
     {"kind": "copy", "cat": "atom_site", "from": "label_asym_id", "to": "auth_asym_id", "alpha": []},
     {"kind": "replace", "cat": "atom_site", "from": "auth_asym_id", "to": "auth_asym_id", "alpha": list(ALPHA_POOL)},
     {"kind": "copy", "cat": "atom_site", "from": "auth_seq_id", "to": "verif_new_item", "alpha": []},
-    {"kind": "replace", "cat": "atom_site", "from": "label_atom_id", "to": "label_atom_id",
+    {"kind": "replace", "cat": "atom_site", "from": "label_comp_id", "to": "label_comp_id",
      "alpha": list(ALPHA_POOL[::-1])},
     {"kind": "copy", "cat": "no_such_category", "from": "label_asym_id", "to": "auth_asym_id", "alpha": []},
     {"kind": "replace", "cat": "atom_site", "from": "no_such_item", "to": "no_such_item", "alpha": list("ABCD")},
 ]
+
+
+def _distinct_values(path, op):
+    """number of distinct values of the operation's column (case generation only: a replace
+    whose alphabet is too short for the file is outside the statement and is not generated)."""
+    with open(path) as f:
+        doc = parse(f.read())
+    for c in doc["cats"]:
+        if c["name"] == op["cat"] and op["from"] in c["attrs"]:
+            i = c["attrs"].index(op["from"])
+            return len({r[i] for r in c["rows"]})
+    return 0
 
 
 def corpus_cases(max_bytes, nops):
@@ -306,6 +318,8 @@ def corpus_cases(max_bytes, nops):
         if not name.endswith(".cif") or os.path.getsize(p) > max_bytes:
             continue
         for k, op in enumerate(CORPUS_OPS[:nops] if os.path.getsize(p) else CORPUS_OPS[:2]):
+            if op["kind"] == "replace" and _distinct_values(p, op) > len(op["alpha"]):
+                continue
             cases.append({"id": f"c{len(cases):03d}", "src": "corpus", "file": name, "op": op})   # short ids: TLC wraps long lines
     return cases
 
